@@ -46,6 +46,10 @@ fn main() {
                 "panic".to_string()
             };
             let msg = msg.replace('\\', "\\\\").replace('"', "\\\"").replace('\n', " ");
+            if msg.starts_with("verif:") {
+                println!("{{\"profile\":\"{profile}\",\"status\":\"out-of-domain\",\"message\":\"{msg}\"}}");
+                std::process::exit(3);
+            }
             println!("{{\"profile\":\"{profile}\",\"status\":\"violated\",\"message\":\"{msg}\"}}");
             std::process::exit(1);
         }
